@@ -491,6 +491,122 @@ def r26_10(ctx, rep):
     module_state_free(ctx, rep, "R26.10", CLI, "the compiler tool")
 
 
+@SPEC.rule(
+    "R26.11",
+    "the exit status is a count: an `errors += 1` that answers a test on a collection gathered from an argument list (a comprehension "
+    "or filter over args.PATH, args.option, args.model) counts one for any number of offending items — the increment for a per-item "
+    "defect sits in a loop over the items, or adds the number of offenders (`errors += len(...)`)",
+)
+def r26_11(ctx, rep):
+    R = "R26.11"
+    fn = _main_fn(ctx, R)
+    site = CLI + ":main"
+    cfg = CFG(fn, R)
+    # locals gathered from an argument list
+    gathered = {}
+    for st in walk_local(fn):
+        if isinstance(st, ast.Assign) and len(st.targets) == 1 and isinstance(st.targets[0], ast.Name):
+            v = st.value
+            src = None
+            for x in ast.walk(v):
+                if isinstance(x, (ast.ListComp, ast.GeneratorExp, ast.SetComp)) and isinstance(x.generators[0].iter, ast.Attribute) and is_name(x.generators[0].iter.value, "args"):
+                    src = x.generators[0].iter.attr
+                if isinstance(x, ast.Call) and is_name(x.func, "filter") and len(x.args) == 2 and isinstance(x.args[1], ast.Attribute) and is_name(x.args[1].value, "args"):
+                    src = x.args[1].attr
+            if src:
+                gathered[st.targets[0].id] = src
+    n = 0
+    per_item = 0
+    for x in cfg.nodes:
+        if not _is_inc(x):
+            continue
+        n += 1
+        inc = x.ast.value
+        for g in cfg.dominated_by(x.id, lambda y: y.kind == "assume"):
+            used = {z.id for z in ast.walk(g.ast) if isinstance(z, ast.Name)} & set(gathered)
+            if not used:
+                continue
+            per_item += 1
+            counts_all = any(isinstance(c, ast.Call) and is_name(c.func, "len") and c.args and isinstance(c.args[0], ast.Name) and c.args[0].id in used for c in ast.walk(inc))
+            rep.ob(R, site, "`%s` under `%s` counts every offender" % (norm(x.ast), norm(g.ast)[:40]), counts_all,
+                   "`%s` collects the offending items of args.%s and the counter is raised by %s for all of them: two missing paths (or two malformed "
+                   "options) give exit status 1" % (sorted(used)[0], gathered[sorted(used)[0]], norm(inc)))
+    # the per-item loops that exist today must stay per-item: each loop over an args list that logs an error counts inside the loop
+    loops = [lp for lp in walk_local(fn) if isinstance(lp, ast.For) and isinstance(lp.iter, ast.Attribute) and is_name(lp.iter.value, "args")]
+    for lp in loops:
+        logs = [c for st in lp.body for c in ast.walk(st) if isinstance(c, ast.Call) and isinstance(c.func, ast.Attribute) and c.func.attr == "error" and is_name(c.func.value, "log")]
+        if logs:
+            per_item += 1
+            incs = [st for b in lp.body for st in ast.walk(b) if isinstance(st, ast.AugAssign) and is_name(st.target, "errors")]
+            rep.ob(R, site, "per-item check over args.%s counts inside the loop" % lp.iter.attr, bool(incs), "the loop over args.%s logs an error per item but does not count it" % lp.iter.attr)
+    if n < 3:
+        raise MechanismMissing(R, "fewer than 3 increments of the error counter found in main()")
+    if per_item < 1:
+        raise MechanismMissing(R, "no per-item argument check (loop over args.PATH / args.option) found in main()")
+
+
+@SPEC.rule(
+    "R26.12",
+    "argument errors win: every test that ends in argp.error(...) (exit status 2) is passed on every path from the start of main() to "
+    "any `return` — in particular before the early `return errors` for counted usage errors, so that `-t sympy` without `-m` exits 2 "
+    "whatever else is wrong with the command line",
+)
+def r26_12(ctx, rep):
+    R = "R26.12"
+    fn = _main_fn(ctx, R)
+    site = CLI + ":main"
+    cfg = CFG(fn, R)
+    guards = []
+    for n in walk_local(fn):
+        if isinstance(n, ast.If) and any(isinstance(c, ast.Call) and isinstance(c.func, ast.Attribute) and c.func.attr == "error" and is_name(c.func.value, "argp")
+                                         for st in n.body for c in ast.walk(st)):
+            guards.append(n)
+    if not guards:
+        raise MechanismMissing(R, "no argp.error(...) check found in main()")
+    rets = [x for x in cfg.stmts() if isinstance(x.ast, ast.Return)]
+    for g in guards:
+        tn = {x.id for x in cfg.nodes if x.kind == "test" and x.ast is g.test}
+        if not tn:
+            raise AnalysisError(R, "test node of the argp.error check not found in the CFG")
+        bad = None
+        for r in rets:
+            bad = bad or cfg.must_pass(cfg.entry, r.id, tn)
+        rep.ob(R, site, "`%s` is tested before any return" % norm(g.test)[:50], bad is None,
+               "main() can return (with the count of usage errors) before this argument check: the command line then exits with that count instead of 2",
+               path=cfg.describe(bad) if bad else "")
+
+
+def every_model_attempted(ctx, rep, R):
+    """in each loop of main() over the requested models, no test inside the loop body reads the running error counter: whether model k is
+    attempted does not depend on how models 1..k-1 fared (the counter may gate the loop as a whole — parse errors before it — not single models)"""
+    fn = _main_fn(ctx, R)
+    site = CLI + ":main"
+    n = 0
+    for lp in walk_local(fn):
+        if not (isinstance(lp, ast.For) and norm(lp.iter) == "args.model"):
+            continue
+        n += 1
+        gates = []
+        for t in ast.walk(lp):
+            test = t.test if isinstance(t, (ast.If, ast.While, ast.IfExp)) else None
+            if test is not None and t is not lp and any(is_name(x, "errors") for x in ast.walk(test)):
+                gates.append("line %d: `%s`" % (t.lineno, norm(test)[:40]))
+        rep.ob(R, site, "model loop #%d attempts every requested model" % n, not gates,
+               "%s — inside the loop the error counter also counts the failures of the models before this one, so one failing model switches off "
+               "all later ones: they neither succeed nor are they counted" % "; ".join(gates[:2]))
+    if n < 2:
+        raise MechanismMissing(R, "expected the sympy/flatten and the casadi loop over args.model in main(), found %d" % n)
+
+
+@SPEC.rule(
+    "R26.13",
+    "each requested model succeeds or fails on its own: inside the loops over args.model nothing is made to depend on the running error "
+    "counter — a model is attempted (and, failing, counted) whatever happened to the models before it",
+)
+def r26_13(ctx, rep):
+    every_model_attempted(ctx, rep, "R26.13")
+
+
 # -- seeded variants ---------------------------------------------------------
 from ._mut import delete_stmt_where, replace_in_func  # noqa: E402
 
@@ -619,3 +735,41 @@ def _m_mutable_default(mod):
             fn.body.insert(1 if isinstance(fn.body[0], ast.Expr) else 0, ast.parse("_seen.append(1)").body[0])
             return mod
     return None
+
+
+@SPEC.mutant("missing paths reported and counted as one", CLI, "R26.11", "counts every offender")
+def _m_missing_once(mod):
+    def edit(fn):
+        for i, st in enumerate(fn.body):
+            if isinstance(st, ast.For) and norm(st.iter) == "args.PATH":
+                fn.body[i:i + 1] = ast.parse("missing = [str(p) for p in args.PATH if not p.exists()]\nif missing:\n    log.error('missing %s', missing)\n    errors += 1").body
+                return True
+        return False
+
+    return mod if replace_in_func(mod, "main", edit) else None
+
+
+@SPEC.mutant("target/model check after the usage-error return", CLI, "R26.12", "tested before any return")
+def _m_late_argcheck(mod):
+    def edit(fn):
+        idx = [i for i, st in enumerate(fn.body) if isinstance(st, ast.If) and "argp.error" in norm(st)]
+        ret = [i for i, st in enumerate(fn.body) if isinstance(st, ast.If) and norm(st.test) == "errors" and any(isinstance(x, ast.Return) for x in st.body)]
+        if not idx or not ret or idx[0] > ret[0]:
+            return False
+        st = fn.body.pop(idx[0])
+        fn.body.insert(ret[0], st)
+        return True
+
+    return mod if replace_in_func(mod, "main", edit) else None
+
+
+@SPEC.mutant("models after a failing one are skipped", CLI, "R26.13", "attempts every requested model")
+def _m_skip_after_failure(mod):
+    def edit(fn):
+        for lp in ast.walk(fn):
+            if isinstance(lp, ast.For) and norm(lp.iter) == "args.model":
+                lp.body.insert(0, ast.parse("if errors:\n    continue").body[0])
+                return True
+        return False
+
+    return mod if replace_in_func(mod, "main", edit) else None
